@@ -264,6 +264,7 @@ func c14RelOne(c *core.Ctx, dir string, p c14RelProgram) {
 		}
 	}
 	c.Eval("release|"+p.Name, true)
+	// debugging aid: C14_DUMP=<path prefix> writes every program with what it printed
 	if d := os.Getenv("C14_DUMP"); d != "" {
 		if f, err := os.OpenFile(fmt.Sprintf("%s.%d", d, os.Getpid()), os.O_APPEND|os.O_CREATE|os.O_WRONLY, 0644); err == nil {
 			fmt.Fprintf(f, "%s\n  %s\n  observations: %q\n  failed: %s\n", p.Name, c14RelText(p), observations, failed)
